@@ -44,6 +44,21 @@ if os.path.realpath(REPO) != "/repo":
             os.rename(_tmp, COQ)
         except OSError:
             _sh.rmtree(_tmp, ignore_errors=True)               # another process of the same run was faster
+    else:
+        # a private copy made by an earlier check of this run: bring hand-written sources that changed in /verif/coq since then up
+        # to date (the generated files under Gen/ are this tree's own business)
+        import filecmp as _fc
+        import shutil as _sh
+        for _d, _ds, _fs in os.walk(os.path.join(_coq0, "theories")):
+            if os.path.basename(_d) == "Gen":
+                continue
+            for _f in _fs:
+                if _f.endswith(".v"):
+                    _src = os.path.join(_d, _f)
+                    _dst = os.path.join(COQ, os.path.relpath(_src, _coq0))
+                    if not os.path.exists(_dst) or not _fc.cmp(_src, _dst, shallow=False):
+                        os.makedirs(os.path.dirname(_dst), exist_ok=True)
+                        _sh.copy2(_src, _dst)
 if COV:                                   # a coverage run is not a check: it must not rewrite the evidence
     EVID = os.path.join(BUILD, "covevidence")
     REPLAY = os.path.join(EVID, "replay")
